@@ -69,7 +69,7 @@ func newRig(e *Env) *mconnRig {
 		}
 	}
 	rig.cfg = p2p.MConnConfig(configs.DefaultP2PConfig())
-	b, _ := proto.Marshal(&kp2p.Packet{Sum: &kp2p.Packet_PacketMsg{PacketMsg: &kp2p.PacketMsg{ChannelID: 1, EOF: true, Data: make([]byte, rig.cfg.MaxPacketMsgPayloadSize)}}})
+	b, _ := proto.Marshal(&kp2p.Packet{Sum: &kp2p.Packet_PacketMsg{PacketMsg: &kp2p.PacketMsg{ChannelID: 0xff, EOF: true, Data: make([]byte, rig.cfg.MaxPacketMsgPayloadSize)}}})
 	rig.maxPkt = len(b)
 	return rig
 }
@@ -209,8 +209,8 @@ func (rig *mconnRig) model(fs []frame) (exp []delivery, mustErr bool, exact bool
 			return exp, true, true
 		}
 		if len(packetMsg(f.Ch, f.Data, f.EOF)) > rig.maxPkt {
-			// the encoded packet is larger than the largest packet the node itself would send (payload limit on
-			// channel 1 with EOF): refused by the frame reader. (A packet on channel 0 / without EOF may carry a few
+			// the encoded packet is larger than the largest packet a node may send (payload limit on the
+			// largest channel id, 0xff, with EOF; since 37cb7cc): refused by the frame reader. (A packet on channel 0 / without EOF may carry a few
 			// bytes more than MaxPacketMsgPayloadSize: the limit is on the encoded size.)
 			return exp, true, true
 		}
